@@ -112,8 +112,10 @@ func (m *decodeMonitor) try(label string, in []byte) {
 		m.region = mon.NewRegion(len(in) + 16)
 		m.regionN = len(in) + 16
 	}
+	m.region.ReadWrite()
 	g := m.region.Right(len(in))
 	copy(g, in)
+	m.region.ReadOnly() // the decoder must not write to its input either: a write faults
 	// reference verdict
 	rd := reflect.New(m.s.Go)
 	rn, info, rerr := ref.Decode(m.s, in, rd.Elem())
